@@ -108,7 +108,7 @@ def unfold(rule):
 def assert_valid(ctx, spec=None):
     spec = spec if spec is not None else ctx.spec
     if spec is None:
-        if "iterative" in ctx.pack_opts:
+        if "iterative" in ctx.pack_opts or "opaque" in ctx.pack_opts:
             return
         raise Bad("no specification found: %r" % (ctx.error,))
     pack = ctx.pack
